@@ -9,6 +9,7 @@
 #include <unistd.h>
 
 int mcx_verbose = 0;
+int mcx_skip_confirm = 0;
 int (*mcx_default_choice)(int n) = NULL;
 
 double mcx_now(void)
@@ -550,10 +551,15 @@ int mcx_explore(const struct mcx_model *m, const struct mcx_opts *o, struct mcx_
                         /* replay twice from the initial state, without the explorer */
                         mcx_hash_t *h1 = calloc((size_t)n, sizeof *h1), *h2 = calloc((size_t)n, sizeof *h2);
                         int va, vb;
+                        int skip = mcx_skip_confirm;
+                        mcx_skip_confirm = 0;
                         int r1 = run_path(m, steps, n, h1, &va);
                         int same1 = r1 && va == n - 1 && strcmp(prop, v_prop) == 0;
                         int r2 = run_path(m, steps, n, h2, &vb);
                         int same2 = r2 && vb == n - 1 && strcmp(prop, v_prop) == 0;
+                        /* sanitizers report a faulty site once per process: such a violation cannot re-fire on replay; the path must still be deterministic */
+                        if (skip && !r1 && !r2) same1 = same2 = 1;
+                        mcx_skip_confirm = 0;
                         if (!same1 || !same2)
                                 mcx_fatal("violation of %s (%s) did not reproduce on replay from the initial state "
                                           "(r1=%d at %d, r2=%d at %d of %d): harness nondeterminism", prop, msg, r1, va, r2, vb, n);
